@@ -31,11 +31,12 @@ def _gen(name, cfg, workers, env=None, timeout=900):
     r = tlc.run("Gen_Reader", cfg, env=e, timeout=timeout, workers=workers)
     recs = []
     if os.path.exists(out):
-        for line in open(out):
-            line = line.strip()
-            if line:
-                v = json.loads(line)
-                recs.append(json.loads(v) if isinstance(v, str) else v)
+        with open(out) as f:
+            for line in f:
+                line = line.strip()
+                if line:
+                    v = json.loads(line)
+                    recs.append(json.loads(v) if isinstance(v, str) else v)
         os.remove(out)
     return r, recs
 
@@ -130,7 +131,7 @@ def history_events(chk, cx, fsx, reqs, eid0, dask_every=4):
                 flags["eq_direct"] = arrays_equal(rl, fsx, d, rl.expected_post(fsx, direct))
             if (o, n) in done:       # repeated request: bitwise the same as the first time
                 flags["repeat_same"] = bool(np.array_equal(done[(o, n)], d))
-            done.setdefault((o, n), d)
+            done.setdefault((o, n), d.copy())
             if not fsx.real:
                 for (o1, n1), d1 in list(done.items()):
                     if o1 + n1 == o and n1 and n and o1 + n1 + n <= fsx.outlen and n1 + n <= cx.maxn.get(fsx.key, 8):
@@ -145,6 +146,9 @@ def history_events(chk, cx, fsx, reqs, eid0, dask_every=4):
             ev = rl.read_event(fsx, o, n, out, eid=eid0 + len(evs))
         evs.append(ev)
         cx.counts["reads"] += 1
+        eager = np.array(out[1].data, copy=True) if out[0] == "ok" else None      # before anything modifies the result
+        if out[0] == "ok" and n > 0 and j % 3 == 0:
+            evs += mutation_steps(cx, fsx, r, o, n, out, j, eid0 + len(evs))
         if out[0] == "ok" and j % dask_every == 1:
             # Dask read: lazy (no file opened while the graph is built), equal to the eager read bitwise
             c0 = rl.opens()
@@ -156,7 +160,7 @@ def history_events(chk, cx, fsx, reqs, eid0, dask_every=4):
                 c2 = rl.opens()
                 z2 = _Computed(arr, zd.start_time, zd.sample_rate)
                 fl = {"dask_lazy": bool(lazy), "dask_opened_on_compute": bool(c2 > c1),
-                      "dask_eq_eager": bool(np.array_equal(arr, np.asarray(out[1].data)) and arr.dtype == out[1].data.dtype),
+                      "dask_eq_eager": bool(np.array_equal(arr, eager) and arr.dtype == eager.dtype),
                       "dask_type": type(zd) is type(out[1])}
                 evs.append(rl.read_event(fsx, o, n, ("ok", z2), eid=eid0 + len(evs), how="dask", flags=fl,
                                          with_direct=direct if fsx.mode == "direct" else None, max_elems=40000))
@@ -164,6 +168,44 @@ def history_events(chk, cx, fsx, reqs, eid0, dask_every=4):
                 ev = rl.read_event(fsx, o, n, ("exc", rl.status_of(e) + ": " + str(e)[:100]), eid=eid0 + len(evs), how="dask")
                 evs.append(ev)
             cx.counts["dask"] += 1
+    return evs
+
+
+def mutation_steps(cx, fsx, r, o, n, out, j, eid0):
+    """A reader must not serve later reads from memory it handed out earlier: the returned signal is
+    modified in place, then a read inside [o, o+n) follows immediately - it must still be the file content
+    (decided by Trace_Reader like every read) and must not share memory with the first result; the same
+    (o, n) read twice in a row gives two independent, equal arrays."""
+    import numpy as np
+    rl = cx.rl
+    evs = []
+    z1 = out[1]
+    d1 = z1.data
+    if j % 2:
+        try:
+            np.multiply(z1, 2, out=z1)
+        except Exception:  # noqa
+            np.multiply(d1, 2, out=d1)
+    else:
+        d1[...] = 0
+    k = j % n
+    o2, n2 = o + k, (n - k if (j // 3) % 2 else max(1, (n - k) // 2))
+    out2 = rl.do_read(r, o2, n2)
+    fl = {}
+    if out2[0] == "ok":
+        d2 = np.asarray(out2[1].data)
+        fl["after_mutation_no_shared_memory"] = not np.shares_memory(d1, d2)
+        if fsx.raw is not None:
+            pos, cnt = (2 * o2, 2 * n2) if fsx.real else (o2, n2)
+            fl["eq_written"] = arrays_equal(rl, fsx, d2, rl.expected_post(fsx, fsx.raw[pos:pos + cnt]))
+    evs.append(rl.read_event(fsx, o2, n2, out2, eid=eid0 + len(evs), how="after-mutation", flags=fl, max_elems=40000))
+    a, b = rl.do_read(r, o, n), rl.do_read(r, o, n)
+    fl = {}
+    if a[0] == "ok" and b[0] == "ok":
+        fl["repeat_no_shared_memory"] = not np.shares_memory(a[1].data, b[1].data)
+        fl["repeat_same"] = bool(np.array_equal(np.asarray(a[1].data), np.asarray(b[1].data)))
+    evs.append(rl.read_event(fsx, o, n, b, eid=eid0 + len(evs), how="repeat", flags=fl, max_elems=40000))
+    cx.counts["mutation_steps"] = cx.counts.get("mutation_steps", 0) + 1
     return evs
 
 
@@ -313,10 +355,14 @@ def forced_schedules(chk, cx, recs, budget, tag):
             chk.machinery_errors.append("no written file set for generated configuration %r" % (F,))
             return n_ok
         args = [(a[0] * s, a[1] * s) for a in rec["args"]]
+        if cx.step_failures.get(fsx.key, 0) >= 2:       # the reader does not perform the modelled steps: reported, do not wait again
+            cx.counts["schedules_skipped_after_step_failures"] = cx.counts.get("schedules_skipped_after_step_failures", 0) + 1
+            continue
         res, err = rl.run_schedule(fsx.reader, args, rec["sched"])
         case = {"kind": "sched", "fileset": fsx.key, "scale": s, "args": args, "sched": rec["sched"], "expected": rec["res"],
                 "model": F}
         if err is not None:
+            cx.step_failures[fsx.key] = cx.step_failures.get(fsx.key, 0) + 1
             chk.violation("schedule:%s:steps" % _key(fsx), "the schedule could not be forced: " + err, case)
             continue
         bad = check_forced(rl, fsx, s, args, rec, res)
@@ -379,10 +425,14 @@ def forced_on_samples(chk, cx, scheds, sets, rnd):
                                   rnd.sample(scheds, min(len(scheds), 24))):
             nread = max(procs)
             args = pairs[i % len(pairs)][:nread] if nread <= 2 else [(b - 2, min(mx, 3)), (b - 1, min(mx, 3)), (b, min(mx, 3))]
+            if cx.step_failures.get(fsx.key, 0) >= 2:
+                cx.counts["schedules_skipped_after_step_failures"] = cx.counts.get("schedules_skipped_after_step_failures", 0) + 1
+                continue
             seq = [rl.do_read(r, o, n) for o, n in args]
             res, err = rl.run_schedule(r, args, procs)
             case = {"kind": "sched-sample", "fileset": fsx.key, "args": args, "sched": procs}
             if err is not None:
+                cx.step_failures[fsx.key] = cx.step_failures.get(fsx.key, 0) + 1
                 chk.violation("schedule:%s:steps" % _key(fsx), "the schedule could not be forced: " + err, case)
                 continue
             for p in range(len(args)):
@@ -418,6 +468,7 @@ def _run(chk, rl, tmp, pool):
     cx.counts = {k: 0 for k in ("reads", "dask", "adjacent", "forced2", "forced3", "forced_sample", "pool", "offset", "meta",
                                  "large")}
     cx.sets_sched = set()
+    cx.step_failures = {}
     cx.written = rl.write_all(tmp)
     cx.samples = rl.sample_files()
     cx.maxn = {"s_stokes": 2, "s_vdif": 6, "s_vdif_lsb": 6, "s_guppi": 8, "s_dada": 16, "s_dada_lsb": 16}
@@ -443,8 +494,8 @@ def _run(chk, rl, tmp, pool):
         small = fsx.key in cx.samples
         lim = (400 if th else 70) if not small else (150 if th else 24)
         if fsx.key == "s_stokes":
-            lim = 30 if th else 8
-        reqs = requests(fsx, rnd, nrand=(60 if th else 12) if fsx.key != "s_stokes" else 4, limit=lim,
+            lim = 30 if th else 5
+        reqs = requests(fsx, rnd, nrand=(60 if th else 12) if fsx.key != "s_stokes" else 2, limit=lim,
                         maxn=cx.maxn.get(fsx.key, 8))
         events += history_events(chk, cx, fsx, reqs, len(events))
     lap("histories")
@@ -565,9 +616,11 @@ def _run(chk, rl, tmp, pool):
     chk.notes["ambiguous"] = amb
     chk.notes["dependency_warning_races_retried"] = cx.counts.get("dependency_warning_races", 0)
     chk.notes["events"] = {"read_sequential": cx.counts["reads"], "read_dask": cx.counts["dask"], "read_pool": cx.counts["pool"],
-                           "offset_at": cx.counts["offset"], "meta": cx.counts["meta"], "adjacent_pairs": cx.counts["adjacent"]}
+                           "offset_at": cx.counts["offset"], "meta": cx.counts["meta"], "adjacent_pairs": cx.counts["adjacent"],
+                           "mutate_then_contained_read_and_back_to_back_repeat": cx.counts.get("mutation_steps", 0)}
     chk.notes["forced_schedules"] = {"two_readers_written_files": cx.counts["forced2"], "three_readers_written_files": cx.counts["forced3"],
                                      "sample_files": cx.counts["forced_sample"], "file_sets": sorted(cx.sets_sched)}
+    chk.notes["schedules_skipped_after_step_failures"] = cx.counts.get("schedules_skipped_after_step_failures", 0)
     chk.notes["large_reads_compared_bitwise"] = cx.counts["large"]
     chk.notes["file_sets"] = {k: "%s, %d samples, frames of %d, %d file(s)" % (_key(v), v.outlen, v.spf, v.nfiles) for k, v in
                               list(cx.written.items()) + list(cx.samples.items())}
@@ -633,6 +686,7 @@ def replay(doc):
         cx.rl = rl
         cx.counts = {k: 0 for k in ("reads", "dask", "adjacent", "forced2", "forced3", "forced_sample", "pool", "offset", "meta", "large")}
         cx.sets_sched = set()
+        cx.step_failures = {}
         cx.written = rl.write_all(tmp)
         cx.samples = rl.sample_files()
         cx.maxn = {}
